@@ -93,6 +93,68 @@ def run(ctx):
         r4.ok("%s builds its error through serde::de::Error::{invalid_type, custom, ..}" % hp, serde.fn(hp))
 
 
+def _seq_access_through_visitor(r, serde, lexpr, inl, shape):
+    """deserialize_seq is evaluated on a pair whose cdr is a pair / the empty list / an atom; the object it hands to
+    `Visitor::visit_seq` is then asked for elements through its own `SeqAccess::next_element_seed`: a first element
+    where the list goes on or ends, an error for an improper tail, `Ok(None)` once a one-element list is used up."""
+    de = serde.fn(ss.DE + "deserialize_seq")
+    if de is None:
+        r.anchor_missing(ss.DE + "deserialize_seq")
+        return
+    inputs = dict(ss.value_inputs(lexpr))
+    for lab, first, second in (("Cons(cdr=Cons)", "Ok(Some)", None), ("Cons(cdr=Null)", "Ok(Some)", "Ok(None)"),
+                               ("Cons(cdr=atom)", "Err", None)):
+        val = inputs[lab]
+        S = sim.Sim([serde, lexpr], hooks={"call": ss.de_hook}, inline=inl, max_depth=7, max_paths=3000)
+        dobj = Adt("value::de::Deserializer", 0, [_cell(val)])
+        accs = []
+        for p in S.run(de, args={1: _cell(dobj)}):
+            for e in p.events:
+                if e[0] == "visit" and e[1] == "visit_seq" and len(e[2]) > 1:
+                    accs.append(S._deref(e[2][1], p))
+        accs = [a for a in accs if isinstance(a, Adt)]
+        if len(accs) != 1:
+            r.violation("serde_lexpr::" + ss.DE + "deserialize_seq", "tail:%s" % lab,
+                        "deserialize_seq on %s does not hand exactly one access object to visit_seq (%d found)" % (lab, len(accs)), de.loc())
+            continue
+        acc = accs[0]
+        base = acc.adt.split("<")[0]
+        nxt = [g for g in serde.fns if g.impl_trait == "serde::de::SeqAccess" and g.path.endswith("::next_element_seed")
+               and (g.self_ty or "").split("<")[0] == base and g.kind != "closure"]
+        if len(nxt) != 1:
+            r.anchor_missing("SeqAccess::next_element_seed for %s" % acc.adt)
+            continue
+        nf = nxt[0]
+        # a generic wrapper (`Sequence<E>`): its type parameter is the type of the part it wraps
+        tyenv = {}
+        for gp in nf.d.get("generics") or []:
+            if gp.startswith("'"):
+                continue
+            for fv in acc.fields:
+                fvv = S._deref(fv, None) if isinstance(fv, sim.Ref) else fv
+                if isinstance(fvv, Adt):
+                    cands = {g.self_ty for g in serde.fns if g.self_ty and g.self_ty.split("<")[0] == fvv.adt.split("<")[0] and g.impl_trait}
+                    if len(cands) == 1:
+                        tyenv[gp] = cands.pop()
+        cell = [acc]
+        got_seq = []
+        for want in (first, second):
+            if want is None:
+                break
+            S2 = sim.Sim([serde, lexpr], hooks={"call": ss.de_hook}, inline=inl, max_depth=7, max_paths=3000)
+            S2._tyenv = [dict(tyenv)]
+            ps = S2.run(nf, args={1: sim.Ref(cell, 0, ())})
+            got = {shape(p) for p in ps}
+            got_seq.append((want, got))
+        bad = [(w, g) for w, g in got_seq if not (g - {"Err"} == ({w} - {"Err"}) and ("Err" in g or w != "Err"))]
+        if not bad:
+            r.ok("next_element_seed of the access object %s on %s -> %s" % (base.rsplit("::", 1)[-1], lab, [w for w, _ in got_seq]), nf)
+        else:
+            w, g = bad[0]
+            r.violation("serde_lexpr::" + nf.path, "tail:%s" % lab,
+                        "%s on %s yields %s, expected %s" % (nf.path, lab, sorted(g), w), nf.loc())
+
+
 def _cell(v):
     return Ref([v], 0, ())
 
@@ -130,12 +192,19 @@ def access_objects(r, serde, lexpr):
         return "?"
 
     la = "<value::de::ListAccess<'de> as serde::de::SeqAccess<'de>>::next_element_seed"
+    if serde.fn(la) is None:
+        # the sequence access object is not the reviewed `ListAccess` any more (merged behind a trait, made generic):
+        # it is taken from where the deserializer hands it to the visitor, whatever type it has
+        la = None
+        _seq_access_through_visitor(r, serde, lexpr, inl, shape)
     ma_k = "<value::de::MapAccess<'de> as serde::de::MapAccess<'de>>::next_key_seed"
     ma_v = "<value::de::MapAccess<'de> as serde::de::MapAccess<'de>>::next_value_seed"
     for lab, cdr in cases:
         cell = ss.SynCons(_cell(ss._mk(lexpr, "Cons")), _cell(ss._mk(lexpr, cdr)))
         for fp, adt, want in ((la, "value::de::ListAccess", "Err" if cdr == "Symbol" else "Ok(Some)"),
                               (ma_v, "value::de::MapAccess", "Err" if cdr == "Symbol" else "Ok")):
+            if fp is None:
+                continue
             res = run_one(fp, adt, [Adt(OPT, 1, [_cell(cell)])])
             if res is None:
                 continue
@@ -149,6 +218,8 @@ def access_objects(r, serde, lexpr):
                             "%s on a cell with %s yields %s, expected %s" % (fp, lab, sorted(got), want), f.loc())
     # end of sequence
     for fp, adt in ((la, "value::de::ListAccess"), (ma_k, "value::de::MapAccess")):
+        if fp is None:
+            continue
         res = run_one(fp, adt, [Adt(OPT, 0, [])])
         if res is None:
             continue
